@@ -14,7 +14,7 @@ from vlib import harness, gen_iso, codecs_, refcodec
 from vlib.harness import exc_sig
 from vlib.strat import uniform
 from cardutil import config as cfgmod
-from cardutil.cli import mci_csv_to_ipm, mci_ipm_to_csv
+from cardutil.cli import mci_csv_to_ipm, mci_ipm_to_csv, mideu
 
 LEVEL = 'exploration'
 EXHAUSTIVE = False
@@ -24,7 +24,7 @@ RULE = ('Tables over the configured output list restricted to what can be an inp
         'non-control part of the IPM codec repertoire, rich in commas, quotes and leading/trailing blanks; integers as plain decimal; '
         'date-times as YYYY-MM-DD HH:MM:SS or the T form inside 1969..2068; a row never supplies both PDS columns and a carrier '
         'column, a supplied carrier is a valid PDS string; generated output_data_elements lists as well as the packaged one; '
-        '{latin_1, cp500, cp037} x blocked/unblocked; function entry points and cli_run of both tools on real files. Oracle: same '
+        '{latin_1, cp500, cp037} x blocked/unblocked; function entry points and cli_run of both tools on real files (plus mideu extract as a second extractor for latin_1 / cp500 files). Oracle: same '
         'number of rows in the same order; every non-empty input cell comes back equal (text exactly, numbers numerically, '
         'date-times after parsing both sides). Non-trivial = >= 2 rows or a cell with a CSV metacharacter; distinct by digest.')
 ASSUMPTIONS = ['an empty input cell means "absent"; the output may hold a derived value there (e.g. DE48 built from PDS columns)',
@@ -161,7 +161,23 @@ def run_cli(csv_text, codec, config, blocked, scratch):
     if rc == -1:
         raise RuntimeError('mci_ipm_to_csv reported a data error: ' + sink.getvalue()[-400:])
     with open(dst, encoding='utf8', newline='') as f:
-        return f.read()
+        text = f.read()
+    if codec in ('latin_1', 'cp500'):
+        # the legacy extractor is a second command entry point for the same extraction (cp500 = "ebcdic", latin1 = "ascii")
+        dst2 = os.path.join(scratch, 'out2.csv')
+        argv = ['extract', ipm, '-s', 'ebcdic' if codec == 'cp500' else 'ascii', '--csvoutputfile', dst2] + ([] if blocked else ['--no1014blocking'])
+        if cfgfile:
+            os.environ['CARDUTIL_CONFIG'] = scratch      # mideu finds cardutil.json through the environment variable
+        try:
+            with contextlib.redirect_stdout(sink):
+                rc2 = mideu.cli_entry(argv)
+        finally:
+            os.environ.pop('CARDUTIL_CONFIG', None)
+        if rc2 == -1:
+            raise RuntimeError('mideu extract reported a data error: ' + sink.getvalue()[-400:])
+        with open(dst2, encoding='utf8', newline='') as f:
+            return text, f.read()
+    return text, None
 
 
 def compare(in_cols, rows, out_text, via):
@@ -204,12 +220,16 @@ def check(codec, config, in_cols, rows, blocked, scratch, cli):
         return res
     if cli:
         try:
-            out = run_cli(text, codec, config, blocked, scratch)
+            out, out2 = run_cli(text, codec, config, blocked, scratch)
         except Exception as ex:
             return exc_sig('cli-raises', ex), f'command entry points raised {ex!r}; first row {rows[0]}'
         res = compare(in_cols, rows, out, 'cli')
         if res:
             return res[0] + ':cli', res[1]
+        if out2 is not None:
+            res = compare(in_cols, rows, out2, 'mideu extract')
+            if res:
+                return res[0] + ':mideu-extract', res[1]
     return None
 
 
